@@ -31,6 +31,9 @@ class LieProp:
         self.assumptions = assumptions or []
         self.nq, self.nt = nq, nt
 
+    def prebuild(self):
+        vlib.build_harnesses(lie_specs())
+
     # ------------------------------------------------------------------ generation
     def gen_lines(self, ctx, n):
         bins = vlib.build_harnesses(lie_specs())
